@@ -34,8 +34,8 @@ KEYSTRING = f"{LEADKEYCHAR}({KEYCHAR})*"
 
 DESCR = f"{KEYSTRING}"
 QDESCR = f"{SQUOTE}{DESCR}{SQUOTE}"
-QDESCRLIST = f"({QDESCR}({SP}{QDESCR})*)?"
-QDESCRS = f"({QDESCR}|{LPAREN}{WSP}{QDESCRLIST}{WSP}{RPAREN})"
+QDESCRLIST = f"({QDESCR}({SP}{QDESCR})*)"
+QDESCRS = f"({QDESCR}|{LPAREN}{WSP}({QDESCRLIST}{WSP})?{RPAREN})"
 
 OID = f"({DESCR}|{NUMERICOID})"
 OIDLIST = f"({OID}({WSP}{DOLLAR}{WSP}{OID})*)"
@@ -57,8 +57,8 @@ QS = f"{ESC}5[Cc]"
 QUTF8 = r"[^'\\]"
 DSTRING = f"({QS}|{QQ}|{QUTF8})+"
 QDSTRING = f"{SQUOTE}{DSTRING}{SQUOTE}"
-QDSTRINGLIST = f"({QDSTRING}({SP}{QDSTRING})*)?"
-QDSTRINGS = f"({QDSTRING}|{LPAREN}{WSP}{QDSTRINGLIST}{WSP}{RPAREN})"
+QDSTRINGLIST = f"({QDSTRING}({SP}{QDSTRING})*)"
+QDSTRINGS = f"({QDSTRING}|{LPAREN}{WSP}({QDSTRINGLIST}{WSP})?{RPAREN})"
 
 
 XSTRING = f"[xX]{HYPHEN}([a-zA-Z]|{HYPHEN}|{USCORE})+"
